@@ -40,6 +40,8 @@ func (o Op) String() string {
 		return fmt.Sprintf("Close(%s)", orP(o.Scope))
 	case "cancel":
 		return fmt.Sprintf("cancel(%s)", o.Scope)
+	case "coll-remove":
+		return fmt.Sprintf("collection.Remove(%s,%s)", o.T, o.Key)
 	}
 	return o.Kind
 }
@@ -104,7 +106,21 @@ func (e *Env) Build() {
 	tid := vsched.ThreadID()
 	e.curScope[tid] = "#build"
 	n0 := len(e.W.Calls)
-	p, did := kit.Try(func() { e.Prov, e.BuildErr = e.Coll.Build() })
+	withCtx := false
+	for _, f := range e.W.Faults {
+		if f == "cancel-build" {
+			withCtx = true
+		}
+	}
+	p, did := kit.Try(func() {
+		if withCtx {
+			ctx, cancel := context.WithCancel(context.Background())
+			e.W.CancelBuild = cancel
+			e.Prov, e.BuildErr = e.Coll.BuildWithContext(ctx)
+			return
+		}
+		e.Prov, e.BuildErr = e.Coll.Build()
+	})
 	if did {
 		e.BuildPanic = p
 	}
@@ -147,6 +163,17 @@ func (e *Env) Do(op Op) *Res {
 		}
 		r.Start = e.W.Mark("op " + op.String())
 		s.Cancel()
+		r.End = e.W.Mark("end " + op.String())
+		return r
+	}
+	if op.Kind == "coll-remove" {
+		// the COLLECTION the provider was built from is edited afterwards (no effect on the provider)
+		r.Start = e.W.Mark("op " + op.String())
+		if op.Key != "" {
+			e.Coll.RemoveKeyed(kit.TypeOf(op.T), op.Key)
+		} else {
+			e.Coll.Remove(kit.TypeOf(op.T))
+		}
 		r.End = e.W.Mark("end " + op.String())
 		return r
 	}
